@@ -25,5 +25,5 @@ cp "$REPO/teamserver/pkg/handlers/404.html" "$S/verifsim/cmd/sim/404.html" || ex
 mkdir -p "$VERIF/.cache/$KEY"
 (cd "$S" && go build -o "$BIN" ./verifsim/cmd/sim) >&2 || { echo "build.sh: go build failed" >&2; rm -rf "$VERIF/.cache/$KEY"; exit 2; }
 # keep the four most recent cache entries
-ls -1dt "$VERIF"/.cache/*/ 2>/dev/null | tail -n +5 | xargs -r rm -rf
+ls -1dt "$VERIF"/.cache/*/ 2>/dev/null | tail -n +13 | xargs -r rm -rf
 echo "$BIN"
